@@ -219,6 +219,9 @@ fn check_any(c: &AnyRule, deep: bool, cnt: &mut Counts) -> Result<(), String> {
     }
 }
 
+/// the seven classifications, by their declared number (never through the library's own conversion)
+const RTYPES: [ResourceType; 7] = [ResourceType::Common, ResourceType::Web, ResourceType::RPC, ResourceType::APIGateway, ResourceType::DBSQL, ResourceType::Cache, ResourceType::MQ];
+
 fn metric_items(thorough: bool) -> Vec<MetricItem> {
     let big = [0u64, 1, u32::MAX as u64, u32::MAX as u64 + 1, u64::MAX];
     let mut v = vec![];
@@ -234,10 +237,10 @@ fn metric_items(thorough: bool) -> Vec<MetricItem> {
                     for b in big {
                         let mut f = [7u64, 8, 9, 10, 11, 12];
                         f[field] = b;
-                        v.push(MetricItem::verif_new(name.to_string(), ResourceType::from(rt), ts, f[0], f[1], f[2], f[3], f[4], f[5], if b > u32::MAX as u64 { u32::MAX } else { b as u32 }));
+                        v.push(MetricItem::verif_new(name.to_string(), RTYPES[rt as usize], ts, f[0], f[1], f[2], f[3], f[4], f[5], if b > u32::MAX as u64 { u32::MAX } else { b as u32 }));
                     }
                 }
-                v.push(MetricItem::verif_new(name.to_string(), ResourceType::from(rt), ts, u64::MAX, u64::MAX, u64::MAX, u64::MAX, u64::MAX, u64::MAX, u32::MAX));
+                v.push(MetricItem::verif_new(name.to_string(), RTYPES[rt as usize], ts, u64::MAX, u64::MAX, u64::MAX, u64::MAX, u64::MAX, u64::MAX, u32::MAX));
             }
         }
     }
@@ -248,6 +251,10 @@ fn check_item(m: &MetricItem) -> Result<(), String> {
     let line = guarded("MetricItem::to_string", || m.to_string())?;
     let back = guarded("MetricItem::from_string", || MetricItem::from_string(&line))?.map_err(|e| format!("own-line-rejected: {:?}: {}", line, e))?;
     let (a, b) = (m.verif_fields(), back.verif_fields());
+    // the last column is the declared number of the classification
+    if !line.trim_end().ends_with(&format!("|{}", a.1)) {
+        return Err(format!("classification-column: an item of classification {:?} (number {}) is written as {:?}", RTYPES.get(a.1 as usize), a.1, line));
+    }
     let want_name = a.0.replace('|', "_");
     if b.0 != want_name {
         return Err(format!("name-altered: {:?} written, {:?} read back (only the separator may be replaced)", a.0, b.0));
